@@ -695,9 +695,12 @@ class World:
             q = fresh('q', I)
             sn = s0.copy()
             arr = fresh('comp', z3.ArraySort(I, eng.sort_of_kind(val.kind)))
+            pats = [arr[q]]
+            if getattr(n, 'a', None) is not None:
+                pats.append(n.a[q])        # also triggered by the source element (what was true of every element)
             sn.assume(z3.ForAll([q], z3.Implies(z3.And(0 <= q, q < n.n),
                                                 z3.And(z3.substitute(ok, (k, q)), arr[q] == z3.substitute(val.term, (k, q)))),
-                                patterns=[arr[q]]))
+                                patterns=pats))
             if eng.feasible(sn):
                 out.append(Result(sn, sn.alloc(Arr(val.kind, arr, n.n, 'list'))))
             for x in excs:
